@@ -2464,9 +2464,10 @@ impl Fs {
     /// List entries in a directory.
     /// Returns paths of files, directories, and symlinks that are direct children of the given path.
     pub(crate) fn dir_entries(&self, path: &Path) -> Vec<PathBuf> {
-        use std::collections::HashSet;
-
-        let mut entries: HashSet<PathBuf> = HashSet::new();
+        // Insertion-ordered: the listing order must be a function of the
+        // operation history only, never of a per-process hasher seed, or two
+        // runs of the same simulation see different `read_dir` orders.
+        let mut entries: IndexSet<PathBuf> = IndexSet::new();
 
         // Add persisted files in this directory
         for file_path in self.persisted_files.keys() {
